@@ -150,6 +150,13 @@ def c17b(ctx, tu):
         rets = [e.get("x") for b, e in fn.events() if e["e"] == "return"]
         calls = [e for b, e in fn.events() if e["e"] == "call" and qe(e) == "trompeloeil::trace_return"]
         ok = len(calls) == 1 and calls[0]["args"][0][:2] == ["param", 0]
+        if not calls:
+            # the free helper may have been folded into the handler: a non-void result goes through the agent's own
+            # trace_return, called on the agent the dispatch function handed in
+            void = (fn.rec.get("ret") or "").strip() == "void"
+            direct = [e for b, e in fn.events() if e["e"] == "call" and qe(e) == AG + "::trace_return" and
+                      lib.resolve(fn, e.get("recv"))[:2] == ["param", 0]]
+            ok = void or len(direct) == 1
         ctx.ob("C17.b.ret", "trompeloeil::return_handler_t::call", ok, pattern=fn.pat, unit=tu.name, inst=fn.q,
                detail="" if ok else "the return handler must route the returned value through the call's trace agent")
     for fn in tu.find("trompeloeil::trace_return"):
